@@ -80,7 +80,8 @@ func (c *PublishHeader) WriteHTMLTo(w io.Writer) (int64, error) {
 	}
 
 	if c.options.ShowSurnames {
-		badge := core.NewCountBadge(getSurnames(c.document).Len())
+		badge := core.NewCountBadge(
+			getSurnames(c.document, c.options.LivingVisibility).Len())
 		item := core.NewNavItem(
 			core.NewComponents(core.NewText("Surnames "), badge),
 			c.selectedTab == selectedSurnamesTab,
@@ -124,15 +125,22 @@ func (c *PublishHeader) WriteHTMLTo(w io.Writer) (int64, error) {
 	).WriteHTMLTo(w)
 }
 
-var surnames = gedcom.NewStringSet()
+// getSurnames returns the surnames of the individuals that are published. The
+// surnames of living individuals are only included when they are shown.
+//
+// The surnames must be collected each time, they belong to this document and
+// this visibility only.
+func getSurnames(document *gedcom.Document, visibility LivingVisibility) *gedcom.StringSet {
+	surnames := gedcom.NewStringSet()
 
-func getSurnames(document *gedcom.Document) *gedcom.StringSet {
-	if surnames.Len() == 0 {
-		for _, individual := range document.Individuals() {
-			surname := individual.Name().Surname()
-			if surname != "" {
-				surnames.Add(surname)
-			}
+	for _, individual := range document.Individuals() {
+		if individual.IsLiving() && visibility != LivingVisibilityShow {
+			continue
+		}
+
+		surname := individual.Name().Surname()
+		if surname != "" {
+			surnames.Add(surname)
 		}
 	}
 
